@@ -667,7 +667,13 @@ func (fx *FnCtx) applyCall(st *State, ci *calleeInfo, recv *Val, args []Val, at 
 	cenv.old = pre
 	// caller-side assertions attached to this callee ("before <callee> assert ...")
 	if fx.fc != nil {
-		for _, c := range fx.fc.CallAsserts[ci.key] {
+		cas := append([]*Clause(nil), fx.fc.CallAsserts[ci.key]...)
+		if ce, ok := at.(*ast.CallExpr); ok {
+			if n := fx.callOrdinal(ce); n > 0 {
+				cas = append(cas, fx.fc.CallAsserts[fmt.Sprintf("%s#%d", ci.key, n)]...)
+			}
+		}
+		for _, c := range cas {
 			goal := fx.specBool(fx.env(st), c.Expr)
 			fx.emit(st, fmt.Sprintf("before(%s):assert[%s]", ci.key, c.Label), "call-assert", c.Tags, goal, c.Src, fx.pos(at))
 			st.assume(goal)
@@ -820,4 +826,30 @@ func (fx *FnCtx) frameCheckCallee(st *State, t modTarget, at ast.Node) {
 		goal = "(or " + strings.Join(disj, " ") + " false)"
 	}
 	fx.emit(st, "frame["+t.heap+"]", "frame", fx.fc.FrameTag, goal, "callee may modify "+t.src+"; must be inside modifies", fx.pos(at))
+}
+
+// callOrdinal: 1-based ordinal of a call expression among the calls with the same callee name
+// in the function body, in source order (used by "before callee#N assert").
+func (fx *FnCtx) callOrdinal(ce *ast.CallExpr) int {
+	if fx.callOrd == nil {
+		fx.callOrd = map[*ast.CallExpr]int{}
+		cnt := map[string]int{}
+		ast.Inspect(fx.decl.Body, func(n ast.Node) bool {
+			if c, ok := n.(*ast.CallExpr); ok {
+				name := ""
+				switch f := ast.Unparen(c.Fun).(type) {
+				case *ast.Ident:
+					name = f.Name
+				case *ast.SelectorExpr:
+					name = f.Sel.Name
+				}
+				if name != "" {
+					cnt[name]++
+					fx.callOrd[c] = cnt[name]
+				}
+			}
+			return true
+		})
+	}
+	return fx.callOrd[ce]
 }
